@@ -11,7 +11,6 @@ import (
 	"strconv"
 	"strings"
 	"sync"
-	"syscall"
 	"time"
 
 	"github.com/q191201771/lal/pkg/base"
@@ -280,7 +279,7 @@ func (s *rsSession) panicInfo() (string, string) {
 	return s.panic, s.frame
 }
 
-const rsWait = 5 * time.Second
+const rsWait = 30 * time.Second
 
 // send writes b in the requested fragmentation and returns the observation after the last fragment.
 func (s *rsSession) send(b []byte, cuts []int, frag string) string {
@@ -529,10 +528,6 @@ func rsBatch(lines [][]byte, seed int64) [][]byte {
 func rtmpSessionDriver(env *Env) error {
 	_ = nazalog.Init(func(o *nazalog.Option) { o.Level = nazalog.LevelLogNothing })
 	if env.Child != "" {
-		// a server with less than 4 GiB of free memory: an allocation request of that size, which a
-		// machine with plenty of untouched virtual memory grants silently, is fatal there
-		lim := syscall.Rlimit{Cur: 3 << 30, Max: 3 << 30}
-		_ = syscall.Setrlimit(syscall.RLIMIT_AS, &lim)
 		tw, err := NewTraceWriter(env.Out)
 		if err != nil {
 			return err
